@@ -2,6 +2,7 @@
   C12 — bound tightening never cuts off a feasible point; row bounds are exact.
 -/
 import Puan.Lemmas.Poly
+import Puan.Lemmas.Comb
 namespace Puan.C12
 open Puan Poly
 
@@ -114,6 +115,14 @@ theorem aMax_row_sum : ∀ (cs : List Int) (bs : List Bnd), (zipTerm tmax cs bs)
   | [], _ => by simp [zipTerm, sumMax]
   | _ :: _, [] => by simp [zipTerm, sumMax]
   | c :: cs, b :: bs => by simp [zipTerm, sumMax, aMax_row_sum cs bs]
+
+/-- The per-row combination counts match a direct enumeration: `restrPts r.cs bnds` lists, without repetition, exactly
+    the restrictions of the in-box points to the row's non-zero columns, and `n_row_combinations` is its length. -/
+theorem nRowComb_card (r : PRow) (bs : List Bnd) (hw : WfB bs) (hl : r.cs.length = bs.length) :
+    (restrPts r.cs bs).Nodup ∧
+    (∀ q, q ∈ restrPts r.cs bs ↔ ∃ xs, InBox xs bs ∧ restr r.cs xs = q) ∧
+    ((restrPts r.cs bs).length : Int) = nComb r.cs bs :=
+  ⟨restrPts_nodup r.cs bs, mem_restrPts r.cs bs hw hl, restrPts_length r.cs bs hw hl⟩
 
 /-- non-vacuity: a system with a coefficient of magnitude 3 where the division rounds, and a solution -/
 example :
